@@ -17,6 +17,25 @@ LEVEL = 'exploration'
 INF = float('inf')
 
 
+def _sum_of_moves(d, moves, limit=6):
+    """can the row difference d be written as a sum of at most `limit` legal moves?"""
+    target = {k: v for k, v in d.items() if v}
+    frontier = [dict()]
+    for _ in range(limit):
+        nxt = []
+        for cur in frontier:
+            for a, b in moves:
+                c = dict(cur)
+                c[a] = c.get(a, 0) - 1
+                c[b] = c.get(b, 0) + 1
+                c = {k: v for k, v in c.items() if v}
+                if c == target:
+                    return True
+                nxt.append(c)
+        frontier = nxt[:2000]
+    return False
+
+
 def check_series(case, t, D, mode, N):
     """validity predicate; returns list of Failure"""
     sim = case['sim']
@@ -63,6 +82,8 @@ def check_series(case, t, D, mode, N):
             plus = [s for s, v in d.items() if v == 1]
             if not d and any(a == b for a, b in moves):
                 continue            # the model has events that leave the status unchanged (failed attempts)
+            if mode.endswith('full') and abs(t[i]) >= 1e8 and _sum_of_moves(d, moves):
+                continue            # one summary row per distinct time: at |t| >= 1e8 a float clock (spacing >= 1.5e-8) can put two events on one instant
             if len(d) != 2 or len(minus) != 1 or len(plus) != 1 or (minus[0], plus[0]) not in moves:
                 fails.append(Failure(name + ':one-legal-move', 'rows %d->%d change by %r (t=%r), not one legal move of %r'
                                      % (i - 1, i, d, t[i], sorted(moves))))
